@@ -96,3 +96,54 @@ func VerifH_C08_classdef_bytes() {
 	verifAssert(err == nil && verifSame(t2, t), "decode/encode/decode fixed point")
 	t.NumClasses()
 }
+
+// VerifH_C08_classdef_runs: class definitions made of 2..3 runs of consecutive glyphs with solver-chosen
+// lengths, gaps (zero gap: touching runs) and classes: long runs make format 2 the smaller encoding.
+func VerifH_C08_classdef_runs() {
+	nruns := 2 + verifChoose("runs", 2)
+	t := Table{}
+	g := []int{0, 100}[verifChoose("start", 2)] // concrete start: the keys of the table stay concrete
+	count := 0
+	segs := 0
+	first, last := -1, -1
+	prevEnd, prevClass := -2, uint16(0)
+	for r := 0; r < nruns; r++ {
+		gap := int(verifU8("gap"))
+		ln := int(verifU8("len"))
+		verifAssume(gap <= 2 && ln >= 1 && ln <= 4)
+		if r > 0 {
+			g += gap
+		}
+		c := verifU16("class")
+		verifAssume(c >= 1 && c <= 3)
+		if !(g == prevEnd+1 && c == prevClass) {
+			segs++
+		}
+		for i := 0; i < ln; i++ {
+			t[glyph.ID(g)] = c
+			if first < 0 {
+				first = g
+			}
+			last = g
+			g++
+			count++
+		}
+		prevEnd, prevClass = g-1, c
+	}
+	enc := t.Append(nil)
+	verifAssert(t.AppendLen() == len(enc), "AppendLen equals the emitted length")
+	l1, l2 := 6+2*(last-first+1), 4+6*segs
+	want := l1
+	if l2 < l1 {
+		want = l2
+		verifReach("format2")
+	}
+	verifAssert(len(enc) == want, "the smaller class definition format is chosen")
+	got, err := Read(verifParser(enc), 0)
+	verifAssert(err == nil, "own class definition accepted")
+	if err != nil {
+		return
+	}
+	verifReach("read")
+	verifAssert(len(got) == count && verifSame(got, t), "class definition round trip")
+}
